@@ -49,7 +49,6 @@ class MultiFit(FitBase):
         self._fits = list(fit_list)  # will raise TypeError if fit_list is not iterable
         self._shared_error_dicts = dict()
         self._shared_error_nodes_initialized = False
-        self._min_x_error = None
         super(MultiFit, self).__init__(
             data=None,
             model_function=None,
@@ -319,6 +318,10 @@ class MultiFit(FitBase):
             par_names=_x_cov_mat_names,
             add_children=False,
         )
+        for _i, _fit_i in enumerate(self._fits):
+            if _fit_i._cost_function.is_chi2 and isinstance(_fit_i, XYFit):
+                # the step size of the numerical derivatives is derived from the x uncertainties
+                self._nexus.add_dependency(name="derivatives%s" % _i, depends_on="x_cov_mat")
         self._nexus.add_function(
             func=_combine_1d_property,
             func_name="derivatives",
@@ -501,9 +504,15 @@ class MultiFit(FitBase):
         for _fit in self._fits:
             _fit._on_error_change()
 
-        _x_errors = np.sqrt(np.diag(self._nexus.get("x_cov_mat").value))
+    @property
+    def _min_x_error(self):
+        """the smallest non-zero x uncertainty of all fits with shared errors (``None`` if there is none)"""
+        _x_cov_mat_node = self._nexus.get("x_cov_mat")
+        if _x_cov_mat_node is None:
+            return None
+        _x_errors = np.sqrt(np.diag(_x_cov_mat_node.value))
         _non_zero_x_errors = _x_errors[_x_errors > 0.0]
-        self._min_x_error = None if len(_non_zero_x_errors) == 0 else np.min(_non_zero_x_errors)
+        return None if len(_non_zero_x_errors) == 0 else np.min(_non_zero_x_errors)
 
     def _set_new_data(self, new_data):
         raise NotImplementedError()
